@@ -6,6 +6,7 @@ from ..model import AnalysisError, loc, norm, walk_no_nested
 from ..report import Result
 from ._containers import KIND_RULES
 from ._vid import check_inverse_tables, check_vertices_are_ids, dict_stores, discover_tables, graph_calls, graph_subscript_tables, table_defs
+from ._vid import check_all_nodes_are_vertices
 
 LEVEL_TEXT = (
     "Structural necessary conditions of C10, decided statically: the vertex-id tables of every projection are inverse of each "
@@ -119,6 +120,7 @@ def run(ctx):
         "K-ROLE": "directed line graph: the arc tail is the hyperedge whose TARGET set entered the distance, the head the one whose SOURCE set did",
         "L-PAIRS": "pair enumerations cover i<j over the same list",
         "F-USE": "keep_isolated / s / weighted / distance are used",
+        "L-ORDERED": "a dedup / visited key that guards arc creation in the directed line graph keeps the order of the pair",
         "S-CANON": "every simplex is canonicalised (tuple(sorted(.))) before insertion and all subsets (sizes 0..len) are generated",
     })
     files = ["hypergraphx/representations/projections.py", "hypergraphx/representations/simplicial_complex.py", "hypergraphx/measures/edge_similarity.py"]
@@ -137,6 +139,8 @@ def run(ctx):
             check_inverse_tables(res, v, id2obj, inv)
         check_vertices_are_ids(res, v, gcalls, inv)
         _check_returns_id_table(res, v, "the projection does not return the id->object table")
+        with res.guard("vertex per node of the bipartite projection"):
+            check_all_nodes_are_vertices(ctx, res)
         # membership links join a hyperedge with each of ITS nodes
         tdefs = table_defs(v)
 
@@ -267,6 +271,28 @@ def run(ctx):
                     res.unknown("K-ROLE", f, norm(ln.node), "tail=target-side", "the hyperedges behind the arc's end points / the sides that entered the similarity were not identified", loc(v.fi, ln.node))
                 else:
                     res.check(rt == "TGT" and rh == "SRC", "K-ROLE", f, norm(ln.node), "tail=target-side", f"arc {tail}->{head} is drawn although the distance compares the {rt} set of {tail} with the {rh} set of {head}: direction reversed", loc(v.fi, ln.node))
+    # ---- arcs are ordered pairs: a visited / dedup table in the directed line graph must not identify (e, f) with (f, e)
+    with res.guard("L-ORDERED in the directed line graph"):
+        v = ctx.view("projections.directed_line_graph")
+        f = v.fi.short
+        links = [gc for gc in graph_calls(ctx, v) if gc.meth == "add_edge" and len(gc.vargs) == 2]
+        guards = 0
+        for ln in links:
+            for iff in v.enclosing_all(ln.node, (ast.If,)):
+                for t in ast.walk(iff.test):
+                    if isinstance(t, ast.Compare) and len(t.ops) == 1 and isinstance(t.ops[0], (ast.NotIn, ast.In)):
+                        key = v.inline(t.left)
+                        names = {x.id for x in ast.walk(key) if isinstance(x, ast.Name)}
+                        ends = set()
+                        for a in ln.vargs:
+                            ends |= {x.id for x in ast.walk(v.inline(a)) if isinstance(x, ast.Name)}
+                        if not (names & ends):
+                            continue
+                        guards += 1
+                        sym = any(isinstance(x, ast.Call) and norm(x.func) in ("sorted", "frozenset", "set", "min", "max") for x in ast.walk(key))
+                        res.add("L-ORDERED", f, norm(t), "ordered-key", "violation" if sym else "ok", "the visited table of the DIRECTED line graph is keyed by the unordered pair of hyperedges: once (e, f) was examined the opposite arc f->e is never evaluated, so arcs are lost" if sym else "", loc(v.fi, t))
+        if not guards:
+            res.ok("L-ORDERED", f, "no visited table", "ordered-key", loc(v.fi, v.fi.node))
     # ---- clique projection keeps isolated nodes when asked
     with res.guard("clique projection keeps isolated nodes when asked"):
         v = ctx.view("projections.clique_projection")
